@@ -2,7 +2,7 @@
 import core
 import gen
 from core import PANIC, opt
-from props.common import default_encode, default_decode, split_range
+from props.common import thorough_aux, default_encode, default_decode, split_range
 
 PROP = 'C02'
 BIN = 'c02'
@@ -163,3 +163,6 @@ REQUIRED = ['overflow above', 'overflow below', 'signed product exactly MIN', 'o
 
 def floors(st, tier):
     return ['class %r never observed' % c for c in REQUIRED if st['classes'].get(c, 0) == 0]
+
+
+extra_passes = thorough_aux('props.c02', ('miri',))
